@@ -184,7 +184,7 @@ def dstepCore (st : DState) (line : String) : DState × Option String :=
   | ["acct", w, n, pk, u] =>
     match unhexStr w, unhexStr n, unhex pk with
     | some w, some n, some pk =>
-      ({ st with accounts := st.accounts ++ [{ wallet := w, name := n, pubkey := pk, unlockable := u == "1" }] }, none)
+      ({ st with accounts := st.accounts ++ [{ wallet := w, name := n, pubkey := pk, unlockable := u == "1" || u == "2" || u.startsWith "d" }] }, none)
     | _, _, _ => bad st line
   | ["perm", c, p, ops] =>
     match unhexStr c, unhexStr p with
@@ -224,6 +224,7 @@ def dstepCore (st : DState) (line : String) : DState × Option String :=
     let ps := if paths == "-" then some [] else (paths.splitOn ",").mapM hs
     match unhexStr c <|> (if c == "." then some "" else none), ps with
     | some c, some ps =>
+      let c := if st.viaGrpc && c.isEmpty then "anonymous-empty" else c
       let names := sortStrings ((listAccounts st.inst.cfg c ps).map (fun a => hexStr (a.wallet ++ "/" ++ a.name)))
       (st, some ("S " ++ (if names.isEmpty then "-" else ",".intercalate names)))
     | _, _ => bad st line
@@ -310,7 +311,7 @@ def dstepCore (st : DState) (line : String) : DState × Option String :=
     match unhexStr c, ipOf ip, parseAddr addr, parseSign (d.splitOn ","), parseFaults f with
     | some c, some ip, some a, some d, some f =>
       let c := if st.viaGrpc && c.isEmpty then "anonymous-empty" else c
-      let ip := if st.viaGrpc then "127.0.0.1" else ip
+      let ip := if st.viaGrpc then (if ip.startsWith "127." then ip else "127.0.0.1") else ip
       let (s', p) := if st.viaGrpc then hSignGeneric st.inst c ip a d (f.signFail.contains 0) else signGeneric st.inst c ip a d (f.signFail.contains 0)
       ({ st with inst := s', lastTrace := traceSign st.inst c a d ++ (if p.root.isSome then [.sign] else []) }, some (posStr p))
     | _, _, _, _, _ => bad st line
@@ -324,7 +325,7 @@ def dstepCore (st : DState) (line : String) : DState × Option String :=
     match unhexStr c, ipOf ip, parseFaults f, its with
     | some c, some ip, some f, some its =>
       let c := if st.viaGrpc && c.isEmpty then "anonymous-empty" else c
-      let ip := if st.viaGrpc then "127.0.0.1" else ip
+      let ip := if st.viaGrpc then (if ip.startsWith "127." then ip else "127.0.0.1") else ip
       let sf := expandSignFails (its.map (fun it => it.2.signingRoot)) f.signFail
       let (s', ps) := if st.viaGrpc then hMultisign st.inst c ip its sf else multisign st.inst c ip its sf
       ({ st with inst := s', lastTrace := traceMsign st.inst c its ++ List.replicate (ps.filter (·.root.isSome)).length .sign }, some (manyStr ps))
